@@ -26,6 +26,8 @@ type Item struct {
 	NoCtx bool
 	// Known names the switch of the known finding this item reproduces ("" if none)
 	Known string
+	// Imports: extra import specs, e.g. `mach "github.com/goose-lang/goose/machine"`
+	Imports []string
 }
 
 // Items is the catalogue.
@@ -67,6 +69,18 @@ var Items = []Item{
 	{ID: "conv-untyped-const", Core: "r = uint64(1 << 40)"},
 	{ID: "const-expr-u32", Core: "var x uint32 = 1 << 20\n\tr = uint64(x + 1)", NoCtx: true, Known: "c02UntypedConstExpr"},
 	{ID: "conv-string-rune", Core: "s := string(rune(65))\n\tr = uint64(len(s))", NoCtx: true},
+	// string conversions × operand kinds (seeded change C02-9)
+	{ID: "conv-string-of-byte-var", Setup: "var b byte = 0xe9", Core: "s := string(rune(b))\n\tr = uint64(len(s))", NoCtx: true},
+	{ID: "conv-string-of-byte-direct", Setup: "var b byte = 0xe9", Core: "s := string(b)\n\tr = uint64(len(s))", NoCtx: true},
+	{ID: "conv-string-of-u32-direct", Setup: "var b uint32 = 0xe9", Core: "s := string(rune(b))\n\tr = uint64(len(s)) + 1", NoCtx: true},
+	{ID: "conv-runes-of-string", Setup: "t := \"é!\"", Core: "rs := []rune(t)\n\tr = uint64(len(rs))", NoCtx: true},
+	{ID: "conv-parenthesised-string-type", Setup: "bs := make([]byte, 2)\n\tbs[0] = 104", Core: "s := (string)(bs)\n\tr = uint64(len(s)) + 1", NoCtx: true},
+	{ID: "conv-named-string-of-bytes", Decls: "type Nsb%N% string", Setup: "bs := make([]byte, 2)\n\tbs[0] = 104", Core: "s := Nsb%N%(bs)\n\tr = uint64(len(s)) + 1", NoCtx: true},
+	{ID: "conv-bytes-of-named-string", Decls: "type Nbs%N% string", Setup: "var s Nbs%N% = \"héllo\"", Core: "bs := []byte(s)\n\tr = uint64(len(bs)) + uint64(bs[1])", NoCtx: true},
+	{ID: "conv-string-of-named-bytes", Decls: "type Nby%N% []byte", Setup: "var bs Nby%N% = make([]byte, 2)\n\tbs[0] = 104", Core: "s := string(bs)\n\tr = uint64(len(s)) + 1", NoCtx: true},
+	{ID: "string-opassign-concat", Setup: "var s string = \"a\"\n\tt := \"bc\"", Core: "s += t\n\tr = uint64(len(s))"},
+	{ID: "string-non-ascii-len", Setup: "s := \"héllo\"", Core: "r = uint64(len(s))"},
+	{ID: "string-bytes-roundtrip-non-ascii", Setup: "s := \"日本\"", Core: "bs := []byte(s)\n\tt := string(bs)\n\tif t == s {\n\t\tr = uint64(len(bs)) + uint64(bs[0])\n\t}", NoCtx: true},
 	{ID: "conv-uint32-of-u8", Setup: "var b byte = 200", Core: "r = uint64(uint32(b) * 2)"},
 
 	// ---- slices, strings, arrays ----
@@ -126,6 +140,14 @@ var Items = []Item{
 	{ID: "range-array", Core: "arr := [2]uint64{1, 2}\n\tfor _, x := range arr {\n\t\tr += x\n\t}", NoCtx: true},
 	{ID: "range-break", Setup: "s := make([]uint64, 3)", Core: "for i := range s {\n\t\tr += uint64(i) + 1\n\t\tbreak\n\t}"},
 	{ID: "range-continue-mid", Setup: "s := make([]uint64, 3)", Core: "for i := range s {\n\t\tif i == 1 {\n\t\t\tcontinue\n\t\t}\n\t\tr += 1\n\t}"},
+	// return inside loops × nesting × results (seeded change C01-18)
+	{ID: "return-in-tail-loop-noresult", Decls: "func ril%N%(p *uint64, n uint64) {\n\tfor i := uint64(0); i < n; i++ {\n\t\tif i == 2 {\n\t\t\treturn\n\t\t}\n\t\t*p = *p + 1\n\t}\n}", Setup: "c := new(uint64)", Core: "ril%N%(c, 5)\n\tr = *c + 10"},
+	{ID: "return-in-nested-tail-loop-noresult", Decls: "func rin%N%(p *uint64, n uint64) {\n\tfor i := uint64(0); i < n; i++ {\n\t\tfor j := uint64(0); j < n; j++ {\n\t\t\tif i == 1 && j == 2 {\n\t\t\t\treturn\n\t\t\t}\n\t\t\t*p = *p + 1\n\t\t}\n\t}\n}", Setup: "c := new(uint64)", Core: "rin%N%(c, 4)\n\tr = *c + 10"},
+	{ID: "return-in-nontail-loop-noresult", Decls: "func rit%N%(p *uint64, n uint64) {\n\tfor i := uint64(0); i < n; i++ {\n\t\tif i == 2 {\n\t\t\treturn\n\t\t}\n\t\t*p = *p + 1\n\t}\n\t*p = *p + 100\n}", Setup: "c := new(uint64)", Core: "rit%N%(c, 5)\n\tr = *c + 10"},
+	{ID: "return-value-in-loop", Decls: "func riv%N%(n uint64) uint64 {\n\tfor i := uint64(0); i < n; i++ {\n\t\tif i == 2 {\n\t\t\treturn i + 40\n\t\t}\n\t}\n\treturn 7\n}", Core: "r = riv%N%(5)*100 + riv%N%(1)"},
+	{ID: "return-in-range-loop", Decls: "func rir%N%(s []uint64) uint64 {\n\tfor i, x := range s {\n\t\tif x == 0 && i == 1 {\n\t\t\treturn uint64(i) + 40\n\t\t}\n\t}\n\treturn 7\n}", Setup: "s := make([]uint64, 3)", Core: "r = rir%N%(s)"},
+	{ID: "return-in-infinite-loop", Decls: "func rif%N%(n uint64) uint64 {\n\tvar i uint64 = 0\n\tfor {\n\t\tif i >= n {\n\t\t\treturn i + 1\n\t\t}\n\t\ti = i + 1\n\t}\n}", Core: "r = rif%N%(4)"},
+	{ID: "return-in-loop-inside-closure", Setup: "c := new(uint64)", Core: "f := func() {\n\t\tfor i := uint64(0); i < 5; i++ {\n\t\t\tif i == 2 {\n\t\t\t\treturn\n\t\t\t}\n\t\t\t*c = *c + 1\n\t\t}\n\t}\n\tf()\n\tr = *c + 10", NoCtx: true},
 	{ID: "if-init", Setup: "a := uint64(2)", Core: "if b := a + 1; b == 3 {\n\t\tr = b\n\t}"},
 	{ID: "for-two-vars", Core: "for i, j := uint64(0), uint64(5); i < j; i++ {\n\t\tr += 1\n\t}", NoCtx: true},
 	{ID: "multi-define-values", Core: "a, b := uint64(1), uint64(2)\n\tr = a*10 + b", NoCtx: true},
@@ -349,6 +371,12 @@ var Items = []Item{
 	{ID: "inline-interface-param", Known: "c02InterfaceConversion", NoCtx: true, Decls: "func fi%N%(x interface {\n\tGet() uint64\n}) uint64 {\n\treturn x.Get()\n}\n\ntype Gi%N% struct {\n\ta uint64\n}\n\nfunc (g Gi%N%) Get() uint64 {\n\treturn g.a\n}", Core: "r = fi%N%(Gi%N%{a: 4})"},
 	{ID: "generic-type-variable", Decls: "type Gv2%N%[T any] struct {\n\tv T\n}", Core: "var o Gv2%N%[uint64]\n\tr = o.v + 1", NoCtx: true},
 
+	// ---- renamed imports of packages goose special-cases by the spelling of the qualifier (seeded change C05-6) ----
+	{ID: "renamed-import-machine", Imports: []string{`mach "github.com/goose-lang/goose/machine"`}, Setup: "b := make([]byte, 8)", Core: "mach.UInt64Put(b, 77)\n\tr = mach.UInt64Get(b)"},
+	{ID: "renamed-import-sync", Imports: []string{`sy "sync"`}, Core: "mu := new(sy.Mutex)\n\tmu.Lock()\n\tr = 1\n\tmu.Unlock()", NoCtx: true},
+	{ID: "renamed-import-machine-as-sync", Imports: []string{`sync2 "github.com/goose-lang/goose/machine"`}, Core: "r = uint64(len(sync2.UInt64ToString(12345)))"},
+	{ID: "dot-import-machine", Imports: []string{`. "github.com/goose-lang/goose/machine"`}, Setup: "b := make([]byte, 8)", Core: "UInt64Put(b, 77)\n\tr = UInt64Get(b)"},
+
 	// ---- look-alikes: user definitions named like GooseLang library functions (captured by later emitted code) ----
 	{ID: "user-func-SliceGet", Decls: "func SliceGet(x uint64) uint64 {\n\treturn x + 100\n}", Setup: "s := make([]uint64, 2)\n\ts[1] = 5", Core: "r = s[1] + SliceGet(1)", Known: "c02LibraryNameCapture"},
 	{ID: "user-func-MapInsert", Decls: "func MapInsert(x uint64) uint64 {\n\treturn x + 100\n}", Setup: "m := make(map[uint64]uint64)", Core: "m[1] = 2\n\tr = m[1] + MapInsert(1)", Known: "c02LibraryNameCapture"},
@@ -375,6 +403,8 @@ var Items = []Item{
 	{ID: "user-func-panic", Decls: "func panic(x string) uint64 {\n\treturn 100\n}", Core: "r = panic(\"no\")", Known: "c02BuiltinLookalike"},
 	{ID: "user-func-uint64", Decls: "func uint64x%N%() {}\n\nfunc uint32(x uint64) uint64 {\n\treturn x + 100\n}", Core: "r = uint32(3)", Known: "c02BuiltinLookalike"},
 	{ID: "user-var-nil", Core: "nil := uint64(3)\n\tr = nil", NoCtx: true},
+	{ID: "user-var-nil-as-initialiser", Core: "nil := uint64(5)\n\tvar y uint64 = nil\n\tr = y + 1", NoCtx: true},
+	{ID: "user-param-nil-as-initialiser", Decls: "func bmpnil%N%(nil uint64) uint64 {\n\tvar y uint64 = nil\n\ty += 1\n\treturn y\n}", Core: "r = bmpnil%N%(5)"},
 	{ID: "user-var-true", Core: "true := uint64(3)\n\tr = true", NoCtx: true},
 	{ID: "user-type-string", Decls: "type byte%N% uint64", Core: "var x byte%N% = 300\n\tr = uint64(x)", NoCtx: true},
 }
@@ -442,12 +472,24 @@ func RenderUse(u Use, k int) (decls string, entry string, name string) {
 func RenderPackage(base string, uses []Use) (string, map[string]Use) {
 	var sb strings.Builder
 	entries := map[string]Use{}
-	needSync := false
 	var body strings.Builder
+	var specs []string
+	seen := map[string]bool{}
+	addSpec := func(spec string) {
+		if !seen[spec] {
+			seen[spec] = true
+			specs = append(specs, spec)
+		}
+	}
 	for k, u := range uses {
 		d, e, name := RenderUse(u, k)
 		if strings.Contains(d+e, "sync.") {
-			needSync = true
+			addSpec(`"sync"`)
+		}
+		if it := ByID(u.Item); it != nil {
+			for _, sp := range it.Imports {
+				addSpec(sp)
+			}
 		}
 		if d != "" {
 			body.WriteString(d + "\n\n")
@@ -456,18 +498,24 @@ func RenderPackage(base string, uses []Use) (string, map[string]Use) {
 		entries[name] = u
 	}
 	if base != "" {
-		if needSync && !strings.Contains(base, "\"sync\"") {
+		for _, sp := range specs {
+			if strings.Contains(base, "\t"+sp+"\n") || strings.Contains(base, "import "+sp+"\n") {
+				continue
+			}
 			if strings.Contains(base, "import (") {
-				base = strings.Replace(base, "import (", "import (\n\t\"sync\"", 1)
+				base = strings.Replace(base, "import (", "import (\n\t"+sp, 1)
 			} else {
-				base = strings.Replace(base, "package main\n", "package main\n\nimport \"sync\"\n", 1)
+				base = strings.Replace(base, "package main\n", "package main\n\nimport "+sp+"\n", 1)
 			}
 		}
 		sb.WriteString(base + "\n")
 	} else {
 		sb.WriteString("package main\n\n")
-		if needSync {
-			sb.WriteString("import \"sync\"\n\n")
+		for _, sp := range specs {
+			sb.WriteString("import " + sp + "\n")
+		}
+		if len(specs) > 0 {
+			sb.WriteString("\n")
 		}
 	}
 	sb.WriteString(body.String())
